@@ -308,6 +308,20 @@ impl Segment {
         }
     }
 
+    /// Closes the writers and waits until everything handed to the background persister
+    /// (no-wait confirmation) has reached the log file. Used on graceful shutdown, where
+    /// detached tasks would be dropped together with the runtime.
+    pub async fn shutdown_writing_and_wait(&mut self) {
+        if let Some(log_writer) = self.log_writer.take() {
+            let _ = log_writer.fsync().await;
+            log_writer.shutdown_persister_task().await;
+        }
+
+        if let Some(index_writer) = self.index_writer.take() {
+            let _ = index_writer.fsync().await;
+        }
+    }
+
     pub async fn delete(&mut self) -> Result<(), IggyError> {
         let segment_size = self.size_bytes;
         let segment_count_of_messages = self.get_messages_count();
